@@ -20,8 +20,10 @@ def get_full_docstring(declaration: nodes.ClassDef | nodes.FuncDef) -> str:
     else:  # pragma: no cover
         raise TypeError("Declaration is of wrong type.")
 
+    # Only a string that is the first statement is the docstring (a string after an attribute is that attribute's)
     full_docstring = ""
-    for definition in definitions:
+    if definitions:
+        definition = definitions[0]
         if isinstance(definition, nodes.ExpressionStmt) and isinstance(definition.expr, nodes.StrExpr):
             full_docstring = definition.expr.value
 
